@@ -163,6 +163,12 @@ func buildAPIPool(c *Ctx, p *Profile, sch *Schema, dir string) *apiPool {
 			s.Data(1, append(u32le(0x38100000+uint32(r)), byte(60+rng.Intn(120)), byte(rng.Intn(200)), byte(rng.Intn(256)), byte(rng.Intn(4))))
 		}
 		add(s.Bytes(), fmt.Sprintf("long plain activity (%d records, %d bytes)", n, len(s.Bytes())))
+		if n > 5000 {
+			// the same file cut in the middle: every entry point fails on it, alone and in company;
+			// whatever a failing call leaves behind must not reach the calls that follow
+			b := s.Bytes()
+			add(b[:len(b)/2], "long plain activity, truncated in the middle")
+		}
 	}
 	add(c12Stream(rng, 0).Bytes(), "timestamp stream (activity)")
 	add(c12Stream(rng, 1).Bytes(), "timestamp stream (schedules, local times with varying offsets)")
